@@ -127,10 +127,11 @@ const (
 	evMarkRemoving
 	evReplicaChange
 	evUpgrade
+	evAdminRemove
 	evCount
 )
 
-var evNames = []string{"advance", "crash", "restart", "newnode", "regflap", "apierr", "falseneg", "regwritefault", "casbump", "regoutage", "leader", "createns", "markremoving", "replicachange", "upgrade"}
+var evNames = []string{"advance", "crash", "restart", "newnode", "regflap", "apierr", "falseneg", "regwritefault", "casbump", "regoutage", "leader", "createns", "markremoving", "replicachange", "upgrade", "adminremove"}
 
 func drawCoordCfg(c *core.RunCtx) coordCfg {
 	t := c.Tape
@@ -164,7 +165,7 @@ func drawCoordCfg(c *core.RunCtx) coordCfg {
 	}
 	g.balWindow = pick(t, 0, 0, 0, 1)
 	// swarm: per-run subset of event kinds
-	base := []int{6, 10, 8, 3, 3, 3, 3, 3, 2, 2, 1, 1, 1, 1, 1}
+	base := []int{6, 10, 8, 3, 3, 3, 3, 3, 2, 2, 1, 1, 1, 1, 1, 1}
 	g.w = make([]int, evCount)
 	for i := range base {
 		g.w[i] = base[i]
@@ -173,7 +174,7 @@ func drawCoordCfg(c *core.RunCtx) coordCfg {
 		}
 	}
 	if os.Getenv("PDSIM_NO_OPERATOR") != "" { // debugging aid: no operator commands
-		g.w[evMarkRemoving], g.w[evReplicaChange], g.w[evUpgrade] = 0, 0, 0
+		g.w[evMarkRemoving], g.w[evReplicaChange], g.w[evUpgrade], g.w[evAdminRemove] = 0, 0, 0, 0
 	}
 	if t.Choose(4) == 0 { // plain node up/down histories only
 		for i := evRegFlap; i < evCount; i++ {
@@ -1164,6 +1165,25 @@ func (s *coordSim) event(kind int) {
 			s.mu.Unlock()
 			err := s.pd.ChangeNamespaceMetaParam(ns, nr, "", 0)
 			c.Log("replicachange", "%s -> %d: %v", ns, nr, err)
+		}
+	case evAdminRemove:
+		// the operator asks for one replica of one partition to be removed
+		// (admin API); the coordinator has to refuse what leaves no safe quorum
+		s.mu.Lock()
+		var ns, nid string
+		pid := 0
+		if len(s.nsOrder) > 0 {
+			ns = s.nsOrder[t.Choose(len(s.nsOrder))]
+			pid = t.Choose(s.metas[ns].PartitionNum)
+			if p := s.parts[ns][pid]; p != nil && p.cur != nil && len(p.cur.RaftNodes) > 0 {
+				nid = p.cur.RaftNodes[t.Choose(len(p.cur.RaftNodes))]
+			}
+		}
+		s.mu.Unlock()
+		if nid != "" {
+			s.operatorCmds++
+			err := s.pd.RemoveNamespaceFromNode(ns, strconv.Itoa(pid), nid)
+			c.Log("adminremove", "%s-%d %s: %v", ns, pid, nshort(nid), err)
 		}
 	case evUpgrade:
 		s.upgrade = !s.upgrade
